@@ -9,6 +9,7 @@ The `BlockProcessingChannel` component is `Earverif.Timeline.bpc_eq_gainAt` in `
 import Earverif.Proofs.C02Vbs
 import Earverif.Proofs.C02Laws
 import Earverif.Proofs.C02Compose
+import Earverif.Proofs.C02Render
 namespace Earverif.Stream
 
 /-- **`delay_eq`** — `Delay(delay = d)` fed ANY partition `parts` of a stream `x = parts.flatten`
@@ -64,14 +65,20 @@ the shifted sum. -/
 def AlignerFact (D : Nat) (rs : List (Nat × List V × List V × List V)) : Prop :=
   ∃ outs al, alignRun D (Aligner.init : Aligner V) 0 rs = .ok (outs, al) ∧ outs.flatten = alignedSum D rs
 
-/-- **`render_refines_spec_partial`** — what is proved of the composition: IF the three type renderers, each run on
-its own over the blocks followed by the tail block, succeed with per-call outputs `o1s/o2s/o3s`, and IF the aligner
-fact holds for these rounds, THEN the whole session (`render` on every block, then `get_tail`) succeeds and its
-concatenated output is the aligned sum `obj[s + overall_delay] + ds[s] + hoa[s]`.
-Missing for the full `render_refines_spec` (= `RenderSpec.out`): `aligner_eq` itself; `fir_blockwise_eq` (FIR with
-history = whole-stream FIR) to turn `vbs_eq` into the group-delay statement; the fold of `bpc_eq_gainAt` over the
-items of one renderer (`procChans`) and its DirectSpeakers/HOA analogue for `interpFixed`; the final index algebra. -/
-theorem render_refines_spec_partial (c : Cfg V) (objs : List (ObjItem V)) (dss : List (DsItem V))
+/-- **`aligner_eq`** — component fact (4), now proved (`Proofs/C02Aligner.lean`): for ANY sequence of rounds whose three
+blocks have the length by which `start_sample` advances (empty rounds included), no assertion of `BlockAligner` fails
+and the concatenated `get`s are the shifted sum `A[s+D] + B[s] + C[s]`. -/
+theorem aligner_eq [LawfulRMod V] (D : Nat) (rs : List (Nat × List V × List V × List V)) (hok : RoundsOK rs) :
+    AlignerFact D rs := by
+  obtain ⟨outs, al, h1, h2⟩ := aligner_run_eq D rs hok
+  exact ⟨outs, al, h1, h2⟩
+
+/-- **`render_refines_spec_partial`** (kept from round 1, the aligner hypothesis now discharged by `aligner_eq`): IF the
+three type renderers, each run on its own over the blocks followed by the tail block, succeed with per-call outputs
+`o1s/o2s/o3s` as long as the blocks, THEN the whole session succeeds and its concatenated output is the aligned sum
+`obj[s + overall_delay] + ds[s] + hoa[s]`.  Superseded by `render_refines_spec` below, which also discharges the three
+renderer hypotheses. -/
+theorem render_refines_spec_partial [LawfulRMod V] (c : Cfg V) (objs : List (ObjItem V)) (dss : List (DsItem V))
     (hoas : List (HoaItem V)) (parts : List (List (List Rat)))
     (obj' : ObjState V) (ds' : List (Nat × DsBpc V)) (hoa' : List (List Nat × HoaBpc V)) (o1s o2s o3s : List (List V))
     (hobj : subRun (fun s S0 b => ObjState.render c s S0 b) (ObjState.init c objs) 0 (parts ++ [tailBlock c]) =
@@ -80,20 +87,23 @@ theorem render_refines_spec_partial (c : Cfg V) (objs : List (ObjItem V)) (dss :
       .ok (ds', o2s))
     (hhoa : subRun (hoaRender c) (hoas.map fun it => (it.tracks, ⟨it.blocks, {}, []⟩)) 0 (parts ++ [tailBlock c]) =
       .ok (hoa', o3s))
-    (haligner : AlignerFact c.overall_delay (rounds (parts ++ [tailBlock c]) o1s o2s o3s)) :
+    (hl1 : o1s.map List.length = (parts ++ [tailBlock c]).map List.length)
+    (hl2 : o2s.map List.length = (parts ++ [tailBlock c]).map List.length)
+    (hl3 : o3s.map List.length = (parts ++ [tailBlock c]).map List.length) :
     renderAll c objs dss hoas parts =
       .ok (alignedSum c.overall_delay (rounds (parts ++ [tailBlock c]) o1s o2s o3s)) := by
-  obtain ⟨outs, al, hrun, hflat⟩ := haligner
+  obtain ⟨outs, al, hrun, hflat⟩ :=
+    aligner_eq c.overall_delay _ (rounds_spec (parts ++ [tailBlock c]) o1s o2s o3s hl1 hl2 hl3).1
   rw [renderAll_eq_run]
   have := run_factor c (parts ++ [tailBlock c]) (RState.init c objs dss hoas) obj' ds' hoa' o1s o2s o3s outs al
     hobj hds hhoa hrun
   rw [this]
   simp only [hflat]
 
-/-- **`C02_block_independent_partial`** — two blockings `p`, `q` of the same input: if (component facts) each type
-renderer's concatenated output stream is the same for both blockings and the aligner fact holds for both, the
-sessions return the same audio. -/
-theorem C02_block_independent_partial (c : Cfg V) (objs : List (ObjItem V)) (dss : List (DsItem V))
+/-- **`C02_block_independent_partial`** (kept from round 1; superseded by `C02_block_independent`) — two blockings `p`,
+`q` of the same input: if each type renderer's concatenated output stream is the same for both blockings, the sessions
+return the same audio. -/
+theorem C02_block_independent_partial [LawfulRMod V] (c : Cfg V) (objs : List (ObjItem V)) (dss : List (DsItem V))
     (hoas : List (HoaItem V)) (p q : List (List (List Rat)))
     (objp objq : ObjState V) (dsp dsq : List (Nat × DsBpc V)) (hoap hoaq : List (List Nat × HoaBpc V))
     (a1 a2 a3 b1 b2 b3 : List (List V))
@@ -103,15 +113,44 @@ theorem C02_block_independent_partial (c : Cfg V) (objs : List (ObjItem V)) (dss
     (hq1 : subRun (fun s S0 b => ObjState.render c s S0 b) (ObjState.init c objs) 0 (q ++ [tailBlock c]) = .ok (objq, b1))
     (hq2 : subRun (dsRender c) (dss.map fun it => (it.track, ⟨it.blocks, {}, []⟩)) 0 (q ++ [tailBlock c]) = .ok (dsq, b2))
     (hq3 : subRun (hoaRender c) (hoas.map fun it => (it.tracks, ⟨it.blocks, {}, []⟩)) 0 (q ++ [tailBlock c]) = .ok (hoaq, b3))
-    (hap : AlignerFact c.overall_delay (rounds (p ++ [tailBlock c]) a1 a2 a3))
-    (haq : AlignerFact c.overall_delay (rounds (q ++ [tailBlock c]) b1 b2 b3))
+    (hpl1 : a1.map List.length = (p ++ [tailBlock c]).map List.length)
+    (hpl2 : a2.map List.length = (p ++ [tailBlock c]).map List.length)
+    (hpl3 : a3.map List.length = (p ++ [tailBlock c]).map List.length)
+    (hql1 : b1.map List.length = (q ++ [tailBlock c]).map List.length)
+    (hql2 : b2.map List.length = (q ++ [tailBlock c]).map List.length)
+    (hql3 : b3.map List.length = (q ++ [tailBlock c]).map List.length)
     (hsame : alignedSum c.overall_delay (rounds (p ++ [tailBlock c]) a1 a2 a3) =
       alignedSum c.overall_delay (rounds (q ++ [tailBlock c]) b1 b2 b3)) :
     renderAll c objs dss hoas p = renderAll c objs dss hoas q := by
-  rw [render_refines_spec_partial c objs dss hoas p objp dsp hoap a1 a2 a3 hp1 hp2 hp3 hap,
-    render_refines_spec_partial c objs dss hoas q objq dsq hoaq b1 b2 b3 hq1 hq2 hq3 haq, hsame]
+  rw [render_refines_spec_partial c objs dss hoas p objp dsp hoap a1 a2 a3 hp1 hp2 hp3 hpl1 hpl2 hpl3,
+    render_refines_spec_partial c objs dss hoas q objq dsq hoaq b1 b2 b3 hq1 hq2 hq3 hql1 hql2 hql3, hsame]
 
 end
+
+/-! ### The full composition -/
+
+section Full
+variable {V : Type} [RMod V] [LawfulRMod V]
+
+/-- **`C02_block_independent`** — for a fixed input and accepted items, the rendered audio (all returned blocks and the
+tail, concatenated) does not depend on how the input is divided into `render` calls; every blocking succeeds. -/
+theorem C02_block_independent (c : Cfg V) (objs : List (ObjItem V)) (dss : List (DsItem V)) (hoas : List (HoaItem V))
+    (hok : SessionOK c objs dss hoas) (p q : List (List (List Rat))) (h : p.flatten = q.flatten) :
+    renderAll c objs dss hoas p = renderAll c objs dss hoas q := by
+  rw [render_refines_spec c objs dss hoas hok p, render_refines_spec c objs dss hoas hok q, h]
+
+/-- **`C02_length_and_origin`** — every blocking succeeds, the concatenation of all returned blocks and the tail has
+exactly as many frames as were fed in, and frame `s` of it is output time `s` (the specified sample `outAt … s`). -/
+theorem C02_length_and_origin (c : Cfg V) (objs : List (ObjItem V)) (dss : List (DsItem V)) (hoas : List (HoaItem V))
+    (hok : SessionOK c objs dss hoas) (parts : List (List (List Rat))) :
+    ∃ out, renderAll c objs dss hoas parts = .ok out ∧ out.length = parts.flatten.length ∧
+      ∀ s, s < parts.flatten.length →
+        out[s]? = some (RenderSpec.outAt c objs dss hoas parts.flatten s) := by
+  refine ⟨_, render_refines_spec c objs dss hoas hok parts, by simp [RenderSpec.out], ?_⟩
+  intro s hs
+  simp only [RenderSpec.out, List.getElem?_map, List.getElem?_range hs, Option.map_some]
+
+end Full
 
 /-- Non-vacuity of `AlignerFact`: two rounds (lengths 2 and 3), delay 1, integer "frames". -/
 example : AlignerFact (V := Rat) 1 [(2, [1, 2], [10, 20], [100, 200]), (3, [3, 4, 5], [30, 40, 50], [300, 400, 500])] :=
